@@ -345,3 +345,177 @@ func init() {
 	noBubble["C15:free"] = true
 	noBubble["C20:free"] = true
 }
+
+// runLifeFree is the free-running layer of C17: several prepare messages for one account name reach one
+// instance at the same instant (real goroutines, all processors).  The name was idle before, nothing aborts or
+// commits in between and the timeout is far away, so exactly one of them opens the session and every other
+// one finds it active and is refused; the same is then asked of simultaneous aborts (exactly one finds a
+// session to abort) and of a prepare racing an abort (afterwards the name is either idle or active, and a
+// further prepare is answered accordingly).
+func runLifeFree(t *testing.T, rc *RunCtx) {
+	InitBLS()
+	ch := rc.Ch
+	prev := runtime.GOMAXPROCS(max(8, runtime.NumCPU()))
+	defer runtime.GOMAXPROCS(prev)
+	s := NewSched(rc, SchedCfg{})
+	defer s.Close()
+	c := NewCluster(t, rc, s, ClusterCfg{IDs: []uint64{1, 2, 3}, Timeout: 10 * time.Minute})
+	defer c.Close()
+	co := &coordinator{c: c}
+	rounds := 6 + ch.Pick(10, 0)
+	for r := 0; r < rounds && len(rc.Viol) == 0; r++ {
+		target := c.Nodes[ch.Pick(3, 0)]
+		acct := fmt.Sprintf("Wallet 3/free %d %d", rc.Seed%100000, r)
+		k := 2 + ch.Pick(10, 0)
+		var wg sync.WaitGroup
+		start := make(chan struct{})
+		okPrep := make([]bool, k)
+		for i := 0; i < k; i++ {
+			wg.Add(1)
+			go func(i int) {
+				defer wg.Done()
+				as := c.Nodes[i%3].Name
+				<-start
+				okPrep[i] = co.prepare(target, as, acct, uint32(2+i%2), c.Nodes) == nil
+			}(i)
+		}
+		close(start)
+		wg.Wait()
+		accepted := 0
+		for _, ok := range okPrep {
+			if ok {
+				accepted++
+			}
+		}
+		rc.Stats.Inc("free_simultaneous_prepares", int64(k))
+		if accepted != 1 {
+			rc.Violate("C17", "prepare-accepted-while-active", fmt.Sprintf("%d prepare messages for %q reached %s at the same instant (idle name, no abort or commit in between, timeout far away) and %d of them were accepted", k, acct, target.Name, accepted), r)
+			return
+		}
+		// simultaneous aborts: exactly one finds the session
+		okAb := make([]bool, k)
+		start2 := make(chan struct{})
+		for i := 0; i < k; i++ {
+			wg.Add(1)
+			go func(i int) {
+				defer wg.Done()
+				<-start2
+				okAb[i] = co.abort(target, c.Nodes[i%3].Name, acct) == nil
+			}(i)
+		}
+		close(start2)
+		wg.Wait()
+		aborted := 0
+		for _, ok := range okAb {
+			if ok {
+				aborted++
+			}
+		}
+		rc.Stats.Inc("free_simultaneous_aborts", int64(k))
+		if aborted != 1 {
+			rc.Violate("C17", "abort-without-session", fmt.Sprintf("%d abort messages for the one active session %q on %s at the same instant: %d were accepted", k, acct, target.Name, aborted), r)
+			return
+		}
+		// gone: a new generation may start, and is then active
+		if err := co.prepare(target, c.Nodes[0].Name, acct, 2, c.Nodes); err != nil {
+			rc.Violate("C17", "prepare-refused-while-idle", fmt.Sprintf("after the abort of %q on %s a new prepare was refused: %v", acct, target.Name, err), r)
+			return
+		}
+		_ = co.abort(target, c.Nodes[0].Name, acct)
+	}
+	rc.Stats.Inc("free_running_rounds", int64(rounds))
+	rc.Stats.Seen("cases", fmt.Sprintf("lifefree/%d/%d", rounds, rc.Seed))
+	rc.Sample = map[string]any{"layer": "free-running simultaneous messages", "rounds": rounds}
+}
+
+func init() {
+	noBubble["C17:free"] = true
+}
+
+// runBatchFree is the free-running layer of C08 and C01: two to four attestation batches over disjoint keys of a
+// large wallet are in flight at once on all processors, round after round.  C08 asks that every returned
+// signature verifies under the key of the account addressed at that position; C01 attributes every returned
+// signature to the key it actually verifies under (among the keys named in its request) and keeps the pairwise
+// ledger per signing key - two entries of one request signed by the same key are two different attestations
+// with one target.
+func runBatchFree(t *testing.T, rc *RunCtx, prop string) {
+	InitBLS()
+	ch := rc.Ch
+	prev := runtime.GOMAXPROCS(max(8, runtime.NumCPU()))
+	defer runtime.GOMAXPROCS(prev)
+	pop := BigPopulation(t)
+	s := NewSched(rc, SchedCfg{})
+	defer s.Close()
+	inst, err := NewInstance(s, "free", InstCfg{Dir: NewRunDir(t), Pop: pop, Permissions: FullPermissions("client1"), AdminIPs: []string{"10.0.0.1"}})
+	if err != nil {
+		t.Fatalf("instance: %v", err)
+	}
+	defer inst.Close()
+	ledger := NewLedger()
+	rounds := 4 + ch.Pick(12, 0)
+	uniq := uint64(0)
+	for r := 0; r < rounds && len(rc.Viol) == 0; r++ {
+		m := 2 + ch.Pick(3, 0)
+		size := 4 + ch.Pick(45, 0)
+		start := ch.Pick(len(pop.Accts)-m*size, 0)
+		ops := make([]*Op, m)
+		res := make([]*OpResult, m)
+		for q := range ops {
+			o := &Op{Kind: "atts", Client: "client1"}
+			for j := 0; j < size; j++ {
+				uniq++
+				e := AttEntry(start+q*size+j, uint64(r), uint64(r+1), uniq)
+				e.ByKey = ch.Pick(3, 0) == 1
+				o.Entries = append(o.Entries, e)
+			}
+			ops[q] = o
+		}
+		var wg sync.WaitGroup
+		begin := make(chan struct{})
+		for q := range ops {
+			wg.Add(1)
+			go func(q int) {
+				defer wg.Done()
+				<-begin
+				res[q] = ops[q].Exec(inst)
+			}(q)
+		}
+		close(begin)
+		wg.Wait()
+		for q, o := range ops {
+			if prop == "C08" {
+				Monitor(rc, ledger, pop, o, res[q], r, false)
+				continue
+			}
+			for i := range o.Entries {
+				if !res[q].OK(i) || i >= len(res[q].Sigs) {
+					continue
+				}
+				e := &o.Entries[i]
+				signer := -1
+				if VerifySig(pop.Accts[e.Acct].PubKey, res[q].Sigs[i], e.ObjectRoot(o.Kind), e.Domain) {
+					signer = e.Acct
+				} else {
+					for j := range o.Entries {
+						if VerifySig(pop.Accts[o.Entries[j].Acct].PubKey, res[q].Sigs[i], e.ObjectRoot(o.Kind), e.Domain) {
+							signer = o.Entries[j].Acct
+							break
+						}
+					}
+				}
+				if signer >= 0 {
+					ledger.AddAtt(rc, pop.Accts[signer].KName, e, r)
+				}
+				rc.Stats.Inc("signatures_released", 1)
+			}
+		}
+		rc.Stats.Inc("free_running_batch_rounds", 1)
+	}
+	rc.Stats.Seen("cases", fmt.Sprintf("batchfree/%d/%d", rounds, rc.Seed))
+	rc.Sample = map[string]any{"layer": "free-running parallel batches", "rounds": rounds}
+}
+
+func init() {
+	noBubble["C08:free"] = true
+	noBubble["C01:free"] = true
+}
